@@ -1122,6 +1122,9 @@ class Builtins:
         cx = self.cx
         s = self._seq(ref, st)
         m = _as_int(args[0])
+        if m is None and isinstance(args[0], VElem) and getattr(self.cx, "non_index_objects", False):
+            # an object without __index__ (float, Fraction, str ...): TypeError, list untouched
+            return raise_(st, "TypeError", origin=("list-imul-non-index",))
         if m is None:
             raise Unsupported("list *= non-int")
         n = z3.Length(s)
